@@ -21,8 +21,10 @@
  *   w<i>    wait, WITHOUT advancing time, until script fiber <i> has finished (p, y, r in a
  *           loop): the others-keep-running clause; gives up with status STARVED
  * after the script the clock keeps going (advance, poll, yield) until every script fiber has
- * finished; the step grows geometrically after a while so that arbitrarily long sleeps end.
- * If they have not finished although virtual time is far beyond every deadline: status LOST.
+ * finished; after 60 rounds of one period each it jumps to the earliest deadline in the tree, so
+ * arbitrarily long sleeps end while time never runs ahead of what some sleeper asked for.
+ * Status LOST = a DEFINITE lost sleeper (vw_lost_check in wrap_sleep.c): a fiber is parked in
+ * fiber_sleep while sleep_spinlock is free and it is not in the sleepers tree, or overdue in it.
  *
  * fiber scripts ('|' separated, one per fiber):
  *   s<sec>_<usec>  fiber_sleep(sec, usec)      u<usec>  usleep(usec)
@@ -41,6 +43,8 @@ extern void* vw_sleepers_addr(void);
 extern void* vw_ttc_addr(void);
 extern void* vw_sleep_lock_addr(void);
 extern void vw_diff(int nops, char** ops);
+extern unsigned long long vw_ticks_to_next_deadline(void);
+extern int vw_lost_check(fiber_t** fibers, const volatile int* done, int nfibers, int* lost_ids);
 
 #define PERIOD_US (FIBER_TIME_RESOLUTION_MS * 1000ull)
 #define NOW_MAX (1ull << 62)
@@ -133,7 +137,7 @@ VH_NOINSTR static void clock_op(const char* op) {
         fiber_poll_events();
         fiber_yield();
         vr_relax();
-        if (++rounds > 4000) {
+        if (++rounds > 50000) {
           vr_note("starved %llu", a);
           vr_finish("STARVED");
         }
@@ -176,12 +180,23 @@ VH_NOINSTR int main(int argc, char** argv) {
     if (*op != '-') clock_op(op);
   unsigned long long step = PERIOD_US;
   for (long round = 0; vh_done_count < vh_script.nfibers; round++) {
-    if (round >= 600) {
-      vr_note("lost %d", vh_script.nfibers - vh_done_count);
+    int lost_ids[VH_MAXF];
+    const int lost = vw_lost_check(vh_fibers, fiber_done, vh_script.nfibers, lost_ids);
+    if (lost) {
+      char buf[200];
+      size_t l = 0;
+      for (int i = 0; i < lost; i++) l += snprintf(buf + l, sizeof buf - l, " %d", lost_ids[i]);
+      vr_note("lost%s", buf);
       vr_finish("LOST");
     }
-    if (round >= 60 && step < NOW_MAX / 4) step *= 2;
-    advance(step);
+    /* one period per round; after a while jump straight to the earliest deadline so that
+     * arbitrarily long sleeps end (time never runs ahead of what some sleeper asked for) */
+    step = PERIOD_US;
+    if (round >= 60) {
+      const unsigned long long nd = vw_ticks_to_next_deadline();
+      if (nd > 1 && nd < NOW_MAX / PERIOD_US) step = nd * PERIOD_US;
+    }
+    if (now_us < NOW_MAX) advance(step);
     fiber_poll_events();
     fiber_yield();
     vr_relax();
